@@ -94,8 +94,10 @@ namespace foonathan
 
                 auto fence  = detail::debug_fence_size;
                 auto offset = detail::align_offset(stack.top() + fence, alignment);
-                if (!stack.top()
-                    || (fence + offset + size + fence > std::size_t(block_end(cur_) - stack.top())))
+                // written so that a huge size cannot wrap the sum around
+                auto overhead = fence + offset + fence;
+                if (!stack.top() || overhead > std::size_t(block_end(cur_) - stack.top())
+                    || size > std::size_t(block_end(cur_) - stack.top()) - overhead)
                     FOONATHAN_THROW(out_of_fixed_memory(info(), size));
                 return stack.allocate_unchecked(size, offset);
             }
